@@ -59,7 +59,7 @@ theorem local_case (inv : FrameInv P H h fr0 m none) (hlow : LowerInv P H bot (C
 theorem jump_case (F : Facts P H) (inv : FrameInv P H h fr0 m none) (hlow : LowerInv P H bot (Callee.of h fr0 m) frs ms')
     (hmark : m ≤ hp.blocks.size) (ex : Exec P H h fr0 m i rest bl pre) (hr : fr0.rest = i :: rest)
     (hnv : Side.definesValue i.op = false) {t : Nat}
-    (hj : Side.jumpOk P fr0.f (Side.defSets fr0.f) fr0.blk pre.length t = true) (evs : List Event) (w : String) :
+    (hj : Side.jumpOk P fr0.f (Side.defSets fr0.f) (blockOffsets fr0.f.blocks 0) fr0.blk pre.length t = true) (evs : List Event) (w : String) :
     StepGoal P H bot ⟨hp, fr0 :: frs⟩ (m :: ms')
       (match jumpTo P (popI fr0 rest) t with
        | some fr' => .cont { heap := hp, stack := fr' :: frs } evs
